@@ -45,6 +45,8 @@ mod session;
 mod tracker_client;
 mod tracker_resp;
 mod utils;
+#[cfg(feature = "verif")]
+pub mod verif;
 
 pub use crate::error::Error;
 
